@@ -219,8 +219,25 @@ func w5ReplicaRun(r *verifsim.Run, dir string) {
 		if committed < fed {
 			acts = append(acts, "commit")
 		}
-		acts = append(acts, "clock", "read")
+		acts = append(acts, "clock", "read", "write")
 		switch acts[c.Intn(len(acts), "rep_act")] {
+		case "write":
+			// a client writes to the replica: refused, and nothing of it may stay behind (a later read,
+			// every image and the final state are compared with the applied stream only)
+			r.Sched("write", "client")
+			stray := fmt.Sprintf("stray-%d", step)
+			err := eng.Do(context.Background(), "test", func(conn Conn, cache []byte) ([]byte, error) {
+				if _, err := conn.Exec("test", "INSERT INTO test_db(t) VALUES ($t)", BlobString("$t", stray)); err != nil {
+					return cache, err
+				}
+				return w5Event(stray, cache), nil
+			})
+			r.Event("client", "write on replica -> err=%v", w5Err(err))
+			if err == nil {
+				r.Fail("C17", "replica_write_accepted", "replica-write", "a write through Do on a replica engine returned nil")
+				return
+			}
+			r.Probe("write_on_replica_refused")
 		case "feed":
 			r.Sched("feed", "binlog")
 			if !feed() {
